@@ -77,6 +77,9 @@ THEOREMS = [
     # construction: what create_path / __init__ accept, refuse (which exception first) and select
     'C20.resolveGradientfxn_ok_iff', 'C20.resolveIntegratorfxn_ok_iff', 'C20.resolve_error_class', 'C20.createPath_ok_iff',
     'C20.createPath_defaults', 'C20.createPath_style_first', 'C20.createPath_energy_first',
+    # reads and range check as generated definitions; Taylor clause with matrices of every dimension
+    'C20.gen_energy_eq_model', 'C20.gen_gradEnergy_eq_model', 'C20.gen_force_eq_model', 'C20.gen_interpRefuses_eq_model',
+    'C20.gen_arccoord_eq_model', 'C20.cumsum_eq_prefix_sums', 'C20.interpRefuses_iff', 'C20.euler_matrix', 'C20.rk4_matrix',
 ]
 PARTIAL = {
     'relaxation_converges_to_saddle': 'convergence of the iterated float/spline relaxation is not a '
@@ -664,6 +667,94 @@ def _unittangent(src):
             f'    (dot : V → V → K) (sqrt : K → K) (self : Path V K) : List V :=\n{body}\n')
 
 
+def _arccoord(src):
+    fn = _class_fn(src, 'BasePath', 'arccoord', prop=True)
+    body = [ast.unparse(x) for x in strip_doc(fn.body)]
+    st = strip_doc(fn.body)
+    if len(st) != 5 or body[0] != 's = np.zeros(len(self.coord))' or body[2] != 'α = np.empty(len(self.coord))' \
+            or body[4] != 'return α':
+        raise TranslationError('arccoord: statements')
+    a = st[1]
+    if not (isinstance(a, ast.Assign) and ast.unparse(a.targets[0]) == 's[1:]'):
+        raise TranslationError('arccoord: s[1:] = …')
+    x, t = _ListTr({'self': 'P'}).tr(a.value)
+    if t != 'LK':
+        raise TranslationError('arccoord: segment lengths')
+    loop = st[3]
+    if not (isinstance(loop, ast.For) and ast.unparse(loop.target) == 'i' and ast.unparse(loop.iter) == 'range(len(α))'
+            and len(loop.body) == 1 and isinstance(loop.body[0], ast.Assign)
+            and ast.unparse(loop.body[0].targets[0]) == 'α[i]'):
+        raise TranslationError('arccoord: loop')
+    v = loop.body[0].value
+    m = ast.unparse(v)
+    if m != 's[:i + 1].sum()':
+        raise TranslationError(f'arccoord: α[i] = {m}')
+    return ('/-- `BasePath.arccoord` (`s = zeros(n); s[1:] = …` as `zeros(n)[:1] ++ …`). -/\n'
+            f'def genArccoord {{V K : Type}} {PCLS}\n'
+            '    (dot : V → V → K) (sqrt : K → K) (self : Path V K) : List K :=\n'
+            f'  let s := (List.replicate self.coord.length (((0 : Nat) : K))).take 1 ++ {x}\n'
+            '  (List.range self.coord.length).map (fun i => Np.sumOf (List.take (i + 1) s))\n')
+
+
+def _reads(src, ism):
+    out = []
+    for name, call, lean in (('energy', 'self.energyfxn(coord)', 'coord.map self.energyfxn'),
+                             ('grad_energy', 'self.gradientfxn(self.energyfxn, coord, **self.gradientkwargs)',
+                              'coord.map (fun x => self.gradientfxn self.energyfxn x self.gradientkwargs)')):
+        fn = _class_fn(src, 'BasePath', name)
+        if _sig(fn) != [('self', ''), ('coord', 'None')]:
+            raise TranslationError(f'{name}: signature')
+        body = [ast.unparse(x) for x in strip_doc(fn.body)]
+        if body != ['if coord is None:\n    coord = self.coord', f'return {call}']:
+            raise TranslationError(f'{name}: body {body}')
+        cap = ''.join(w.capitalize() for w in name.split('_'))
+        typ = 'List K' if name == 'energy' else 'List V'
+        out.append(f'def gen{cap} {{V K : Type}} (self : Path V K) (coord : Option (List V)) : {typ} :=\n'
+                   f'  let coord := coord.getD self.coord\n  {lean}\n')
+    fn = _class_fn(src, 'BasePath', 'force', prop=True)
+    body = [ast.unparse(x) for x in strip_doc(fn.body)]
+    if body != ["return np.einsum('ij,ij->i', self.grad_energy(), self.unittangent)"]:
+        raise TranslationError(f'force: body {body}')
+    out.append(f'def genForce {{V K : Type}} {PCLS}\n    (dot : V → V → K) (sqrt : K → K) (self : Path V K) : List K :=\n'
+               '  Np.ew dot (genGradEnergy self none) (genUnitTangent dot sqrt self)\n')
+    # the range check of interpolate_path
+    fn = _class_fn(ism, 'ISMPath', 'interpolate_path')
+    st = strip_doc(fn.body)
+    if not (ast.unparse(st[0]) == 'α = self.arccoord' and isinstance(st[1], ast.If) and len(st[1].body) == 1
+            and isinstance(st[1].body[0], ast.Raise) and not st[1].orelse):
+        raise TranslationError('interpolate_path: range check')
+    if _raise_class(st[1].body[0]) != '.value':
+        raise TranslationError('interpolate_path: the refusal is not a ValueError')
+
+    def tr(node):
+        if isinstance(node, ast.BinOp) and isinstance(node.op, ast.BitOr):
+            return f'({tr(node.left)} || {tr(node.right)})'
+        if isinstance(node, ast.BoolOp) and isinstance(node.op, ast.Or):
+            return '(' + ' || '.join(tr(v) for v in node.values) + ')'
+        if isinstance(node, ast.Call) and ast.unparse(node.func) == 'np.any' and len(node.args) == 1 \
+                and isinstance(node.args[0], ast.Compare) and len(node.args[0].ops) == 1 \
+                and ast.unparse(node.args[0].left) == 'arccoord':
+            c = node.args[0]
+            rhs = ast.unparse(c.comparators[0])
+            if rhs == '0':
+                b = '((0 : Nat) : K)'
+            elif rhs == 'α[-1]':
+                b = '(α.getLastD ((0 : Nat) : K))'
+            else:
+                raise TranslationError(f'interpolate_path: bound {rhs}')
+            rel = {ast.Lt: f'decide (a < {b})', ast.Gt: f'decide ({b} < a)', ast.LtE: f'decide (¬ {b} < a)',
+                   ast.GtE: f'decide (¬ a < {b})'}.get(type(c.ops[0]))
+            if rel is None:
+                raise TranslationError('interpolate_path: comparison')
+            return f'Np.anyOf arccoord (fun a => {rel})'
+        raise TranslationError(f'interpolate_path: range test {ast.unparse(node)}')
+
+    out.append('/-- the test under which `interpolate_path` raises ValueError. -/\n'
+               'def genInterpRefuses {K : Type} [NatCast K] [LT K] [DecidableLT K] (α arccoord : List K) : Bool :=\n'
+               f'  {tr(st[1].test)}\n')
+    return out
+
+
 def _only_prints(stmts):
     for st in stmts:
         if not (isinstance(st, ast.Expr) and isinstance(st.value, ast.Call) and ast.unparse(st.value.func) == 'print'):
@@ -901,6 +992,8 @@ def _path_source():
     parts.append(_default_expr(ism, 'default_timestep'))
     parts.append(_default_expr(ism, 'default_tolerance'))
     parts.append(_unittangent(ism))
+    parts.append(_arccoord(base))
+    parts += _reads(base, ism)
     pins, sig_step = _step_pins(ism, init_names)
     parts += pins
     parts.append(_GENLOOP)
@@ -2726,7 +2819,15 @@ ASSUMPTIONS = ['IEEE double rounding of the implementation is bounded by rtol 1e
                'the square root is a parameter of the model (hypothesis sqrt x * sqrt x = x); the driver uses a rational '
                'square root accurate to 2^-64',
                'Real.exp is the flow of y\' = a y (Mathlib), used only in the two one-step error theorems']
-TRUSTED = ['numpy (rate function A@y, einsum, norm) and scipy CubicSpline at its knots in the correspondence run']
+TRUSTED = ['numpy (rate function A@y, einsum, norm) and scipy CubicSpline at its knots in the correspondence run',
+           'the reading of numpy array programs as list programs by the translator of Generated/PathSource.lean: slices x[a:], '
+           'x[:-b] as drop / dropLast, element-wise operations of equally long slices as zipWith, (x.T / norm(x)).T as a '
+           'row-wise map, np.hstack as append, np.arange(n)[mask] as the indices of the true flags, s = zeros(n); s[1:] = x as '
+           'zeros(n)[:1] ++ x, `for i in range(n): body; if test: break` as the recursion genLoop; the three row assignments '
+           'of unittangent as head ++ middle ++ last (strings of two or more images)',
+           'statement pins (not definitions): the segment loop of ISMPath.step (startindices / endindices / linspace per '
+           'segment: genStepSegmentPins, tied to respaceTargets by observing the array handed to interpolate_path), the two '
+           'integrator calls of step (matched literally by the translator, TranslationError otherwise)']
 
 
 def _np():
